@@ -460,11 +460,11 @@ Example C16_concurrent_example :
   let ch := b "Bearer realm=""https://auth.example/token"",service=""s"",scope=""repository:a:pull""" in
   match yrun clean_scopes parse_total cf yinit
           [YStart 1 (mkReq 0 [] [] BNone) [A401 ch; ATok 5; AOk];
-           YStart 2 (mkReq 0 [] [] BNone) [A401 ch; ATok 6; AOk];
+           YStart 2 (mkReq 0 [] [] BNone) [A401 ch; AOk];   (* finds call 1's token at its second look *)
            YStart 3 (mkReq 1 [] [] BNone) [AOk];
            YLook 1 1; YLook 2 1; YLook 2 2; YFinish 1; YLook 2 3; YFinish 2; YFinish 3] with
   | Some y => map (fun o => (fst o, snd (snd o))) (y_out y) = [(3, RResp false); (2, RResp false); (1, RResp false)]
-              /\ cc_get_token (y_cache y) 0 SchBearer (b "repository:a:pull") = Some (SIssued 0 6)
+              /\ cc_get_token (y_cache y) 0 SchBearer (b "repository:a:pull") = Some (SIssued 0 5)
   | None => False
   end.
 Proof. vm_compute. auto. Qed.
